@@ -1124,15 +1124,15 @@ impl TypeSpace {
 
         // See if the value bounds fit within a known type.
         let maybe_type = match (min, max) {
-            (None, Some(max)) => formats.iter().rev().find_map(|(_, ty, _nz_ty, _, imax)| {
-                if (imax - max).abs() <= f64::EPSILON {
-                    Some(ty.to_string())
-                } else {
+            // With only an upper bound, arbitrarily negative values are
+            // permitted so no type narrower than the default will do.
+            (None, Some(_)) => None,
+            // With only a lower bound, arbitrarily large values are permitted
+            // so only the widest unsigned types are appropriate.
+            (Some(min), None) => formats.iter().rev().find_map(|(_, ty, nz_ty, imin, imax)| {
+                if *imax < u64::MAX as f64 {
                     None
-                }
-            }),
-            (Some(min), None) => formats.iter().rev().find_map(|(_, ty, nz_ty, imin, _)| {
-                if min == 1. {
+                } else if min == 1. {
                     Some(nz_ty.to_string())
                 } else if (imin - min).abs() <= f64::EPSILON {
                     Some(ty.to_string())
